@@ -47,6 +47,8 @@ def dispatch (line : String) : String :=
     | "tls" => C06.tlsOp args
     | "pool" => PoolOp.poolOp args
     | "wstall" => PoolOp.wstallOp args
+    | "ctor" => C06.ctorOp args
+    | "racc" => C15.raccOp args
     | "cstall" => PoolOp.cstallOp args
     | "shut" => PoolOp.shutOp args
     | "transports" => C18.transportsOp args
